@@ -46,6 +46,8 @@ Layer(kind, x) ==
     [] kind = "utf16" -> [enc |-> Utf16Encode(x), ty |-> "", obf |-> "codec.uft-16", val |-> x, off |-> 0,
                           dom |-> Len(x) >= 7 /\ Ascii(x) /\ \A i \in 1..Len(x) : Utf16Char(x[i])]
     [] kind = "xmldec" -> [enc |-> XmlEncodeDec(x), ty |-> "", obf |-> "unescape.xml", val |-> x, off |-> 0, dom |-> Len(x) >= 5]
+    [] kind = "xmlhexU" -> [enc |-> Concat([i \in 1..Len(x) |-> <<38, 35, 88, HexUp(x[i] \div 16), HexUp(x[i] % 16), 59>>]), ty |-> "", obf |-> "unescape.xml",
+                            val |-> x, off |-> 0, dom |-> Len(x) >= 5]
     [] kind = "xmlhex" -> [enc |-> XmlEncodeHex(x), ty |-> "", obf |-> "unescape.xml", val |-> x, off |-> 0, dom |-> Len(x) >= 5]
     [] kind = "unescape" -> [enc |-> Call(UNESCAPE, SQ, PctAll(x)), ty |-> "string", obf |-> "function.unescape", val |-> x, off |-> 0, dom |-> x # <<>>]
     [] kind = "concat" -> [enc |-> <<SQ>> \o SubSeq(x, 1, Half(x)) \o <<SQ, 32, 43, 32, DQ>> \o SubSeq(x, Half(x) + 1, Len(x)) \o <<DQ>>,
@@ -66,11 +68,18 @@ Layer(kind, x) ==
                           dom |-> \A i \in 1..Len(x) : x[i] \notin {94, 0, 41, 40, 13}]
     [] kind = "psbytes" -> [enc |-> CommaDec(x), ty |-> "powershell.bytes", obf |-> "", val |-> x, off |-> 0, dom |-> Len(x) >= 501]
 
-\* texts[i] = the text after wrapping the payload in layers 1..i (layer 1 innermost); texts[0] would be the payload
-RECURSIVE TextAfter(_)
-TextAfter(i) == IF i = 0 THEN T.payload ELSE Layer(T.stack[i], TextAfter(i - 1)).enc
+\* The layer records are computed once per case, when the case is selected (they are long byte strings; recomputing
+\* them at every use made a single case take minutes): LS[i] = Layer(stack[i], text wrapped by layers 1..i-1), layer 1 innermost
+TR(t) == Traces[t]
+BuildLayers(t) ==
+  LET RECURSIVE Build(_, _, _)
+      Build(i, x, acc) == IF i > Len(TR(t).stack) THEN acc
+                          ELSE LET l == Layer(TR(t).stack[i], x) IN Build(i + 1, l.enc, Append(acc, l))
+  IN Build(1, TR(t).payload, <<>>)
+VARIABLE LS
 H == Len(T.stack)
-LayerAt(i) == Layer(T.stack[i], TextAfter(i - 1))
+LayerAt(i) == LS[i]
+TextAfter(i) == IF i = 0 THEN T.payload ELSE LS[i].enc
 InDomain == \A i \in 1..H : LayerAt(i).dom
 Input == T.pre \o TextAfter(H) \o T.suf
 
@@ -104,11 +113,12 @@ Clauses ==
   ELSE (IF T.raised # "" THEN {"raised"} ELSE {})
        \cup (IF T.raised = "" /\ ~ChainFound THEN {"chain"} ELSE {})
        \cup (IF T.raised = "" /\ ChainFound /\ T.flat # ExpectedFlat THEN {"flatten"} ELSE {})
-Init == tid \in 1..Len(Traces) /\ judged = FALSE
-Judge == /\ ~judged
+Init == tid \in 1..Len(Traces) /\ judged = FALSE /\ LS = <<>>
+Prepare == LS = <<>> /\ ~judged /\ LS' = BuildLayers(tid) /\ UNCHANGED <<tid, judged>>       \* (an action, so that the workers share the cases)
+Judge == /\ ~judged /\ LS # <<>>
          /\ LET cl == Clauses IN
             /\ \A c \in cl : PrintT(<<"V", tid, c>>)
             /\ PrintT(<<"V", tid, IF cl \subseteq {"n/a"} THEN "ACCEPT" ELSE "REJECT">>)
-         /\ judged' = TRUE /\ UNCHANGED tid
-Spec == Init /\ [][Judge]_<<tid, judged>>
+         /\ judged' = TRUE /\ UNCHANGED <<tid, LS>>
+Spec == Init /\ [][Prepare \/ Judge]_<<tid, judged, LS>>
 =============================================================================
